@@ -201,7 +201,17 @@ def _cases_chain():
 def _check_chain(case):
     from orquestra.quantum.decompositions import decompose_operations
     rules, ops = case
-    rs = [_Rule(*_POOL[i]) for i in rules]
+    for shared in (False, True):          # a rule listed twice may be one and the same object, or two equal objects: each listed position is applied
+        objs = {}
+        rs = [objs.setdefault(i, _Rule(*_POOL[i])) for i in rules] if shared else [_Rule(*_POOL[i]) for i in rules]
+        ok, msg = _check_chain_with(rs, ops)
+        if not ok:
+            return False, ("(the same rule object listed repeatedly) " if shared else "") + msg
+    return True, "ok"
+
+
+def _check_chain_with(rs, ops):
+    from orquestra.quantum.decompositions import decompose_operations
     before = list(ops)
     got = list(decompose_operations(ops, rs))
     cur = list(ops)
